@@ -1,0 +1,12 @@
+//go:build verif
+
+// Contracts for package config_parser, read by /verif/govc (comment-only file).
+
+package config_parser
+
+//@ func (*Param).String
+//@   pure
+//@   trusted
+//@ func (*Function).String
+//@   pure
+//@   trusted
